@@ -55,6 +55,10 @@ def gen_case(rng, tier, wrap=False):
             queries.append([name, rng.randint((first - 5) * DAY, (days[-1] + 5) * DAY)])
     c = {'assets': assets, 'adjust': adjust, 'queries': queries, 'stream': 'random', 'wrap': wrap}
     if rng.random() < 0.5:
+        # instants with a sub-second part: the answer is that of the whole second they lie in (boundary - 1 ms is still before it)
+        c['subsec'] = [(rng.choice([999999999, 999999000, 999000000, 600000000, 400000000, 1, 500000000]) if rng.random() < 0.3 else 0)
+                       for _ in queries]
+    if rng.random() < 0.5:
         c['cut_day'] = rng.choice(all_days)
     if rng.random() < 0.3:
         c['csv_symbols'] = rng.sample(sorted(assets), len(assets))
